@@ -19,12 +19,12 @@ RULE = ("full product envelope set E (lifecycle seeds, manifest length at every 
         "of the harness key over ['Signature1', prot, h'', digest bstr] built by the verifier (ECDSA via cryptography "
         "with fixed-width r||s, Ed25519ph via a pure-Python RFC 8032 verifier). Signature values: (i) seam - the KMS "
         "ECDSA conversion driven with every (r, s) leading-zero pattern for 3 curves; (ii) N real signatures per curve "
-        "through SuitKMS.sign, each checked for width and validity. distinct = distinct (envelope, alg, key, kid, "
+        "through SuitKMS.sign, each checked for width and validity; (iii) histories of library sign_envelope calls on one in-memory envelope object (immutable or plain-dict content, fresh or reused Signer): every result is the original plus one block, the caller's object and earlier results never change. distinct = distinct (envelope, alg, key, kid, "
         "encoding) tuples / (r,s) pairs / signatures")
 ASSUMPTIONS = ["cryptography's verification primitives (ECDSA, Ed25519, Ed448)", "svmc/refcose.py (self-tested with RFC 8032 vectors)",
                "real-randomness stage (ii) is exhaustive only in the number of draws, each recorded signature is the artefact"]
-BOUNDS = {"quick": "|E|~45 x 6 (alg,key) x 11 key ids x 2 encodings; (r,s) seam complete; 5000 real signatures per curve",
-          "thorough": "same product; 20000 real signatures per curve"}
+BOUNDS = {"quick": "|E|~45 x 6 (alg,key) x 11 key ids x 2 encodings; (r,s) seam complete; library histories depth 2; 5000 real signatures per curve",
+          "thorough": "same product; library histories depth 3; 20000 real signatures per curve"}
 
 KIDS = [0x7FFFFFE0, 0, 1, 23, 24, 255, 256, 65535, 65536, 2**32 - 1, 0x40000000]
 ALG_KEYS = [("eddsa", "ed25519"), ("es-256", "p256"), ("es-384", "p384"), ("es-521", "p521"), ("hash-eddsa", "ed25519"), ("eddsa", "ed448")]
@@ -130,7 +130,7 @@ def check_signed(inp: bytes, out: bytes, alg_name: str, key_name: str, kid: int)
         return "protected-header", f"protected header is {got!r} ({prot.value.hex()}), expected {{1: {alg}, 4: bstr(cbor({kid}))}} ({want_prot.hex()})"
     digest_bstr = a2.items[0]
     tbs = refcose.sig_structure(prot.value, digest_bstr.value)
-    pub = vkeys.private_key(key_name.replace("_der", "")).public_key()
+    pub = vkeys.private_key(vkeys.identity(key_name)).public_key()
     bad = refcose.verify(alg, pub, sig.value, tbs)
     if bad:
         return "signature", bad
@@ -324,9 +324,117 @@ class _VolumeStage(CaseStage):
     replayable = False
 
 
+# -- key names ------------------------------------------------------------------------------------------
+
+def keyname_cases(tier):
+    out = []
+    for alg, kind in ALG_KEYS:
+        for pat in ("{}.v2", "solo.{}", "solo.{}-der"):
+            for via in ("main", "cli"):
+                out.append({"alg": alg, "key": pat.format(kind), "via": via})
+    return out
+
+
+def run_keyname(case, agg):
+    """key names as a project would choose them (dots in the name; a sibling key with the truncated name present or
+    not): the file <key-name>.pem / <key-name>.der of the key directory signs"""
+    from suit_generator import cmd_sign
+    from suit_generator.suit_sign_script_base import SuitSignAlgorithms, SignatureAlreadyPresentActions
+    b = created_set()["manifest-len-24"]
+    sign_script, kms_script = scripts()
+    label = f"sign with key name {case['key']!r} alg={case['alg']} via {case['via']}"
+    with fresh_dir("c04k") as d:
+        inp, outp = os.path.join(d, "in.suit"), os.path.join(d, "out.suit")
+        open(inp, "wb").write(b)
+        try:
+            if case["via"] == "cli":
+                rc, so, se = impl.cli(["sign", "single-level", "--input-envelope", inp, "--output-envelope", outp, "--key-name", case["key"],
+                                       "--key-id", "0x77", "--alg", case["alg"], "--context", vkeys.key_dir(), "--sign-script", sign_script,
+                                       "--kms-script", kms_script], d)
+                if rc != 0:
+                    raise RuntimeError(f"CLI rc={rc}: {se[-300:]}")
+            else:
+                cmd_sign.main(sign_subcommand="single-level", input_envelope=inp, output_envelope=outp, key_name=case["key"],
+                              key_id=0x77, alg=SuitSignAlgorithms(case["alg"]), context=vkeys.key_dir(), sign_script=sign_script,
+                              kms_script=kms_script, already_signed_action=SignatureAlreadyPresentActions("error"))
+            out = open(outp, "rb").read()
+        except Exception as e:
+            agg.viol(f"C04:key-name/sign-failed/{type(e).__name__}", f"{label}: {type(e).__name__}: {str(e)[-300:]}")
+            return
+    r = check_signed(b, out, case["alg"], case["key"], 0x77)
+    if r:
+        agg.viol(f"C04:key-name/{r[0]}", f"{label}: {r[1]}")
+    else:
+        agg.ok(h8("c04k", case), f"ok:{case['via']}", sample=case if case["alg"] == "es-384" and case["via"] == "cli" else None)
+
+
+# -- (iii) the sign script's library API on in-memory envelopes -------------------------------------------
+
+LIB_ENVS = ["manifest-len-24", "manifest-len-256"]
+LIB_OPS = [(form, reuse, ak) for form in ("frozen", "dict") for reuse in ("fresh-signer", "same-signer") for ak in range(len(ALG_KEYS))]
+
+
+def lib_init():
+    return [((e,), ("env", e)) for e in LIB_ENVS]
+
+
+def lib_step(hist, agg, expand):
+    """a history of sign_envelope calls on ONE in-memory envelope object (each call with its own algorithm/key, by a
+    fresh or the same Signer, the tag content given as cbor2's immutable mapping or as a plain dict): every result is
+    the ORIGINAL input plus exactly one block, the caller's object is never modified, earlier results stay as they were"""
+    import cbor2
+    import importlib.util
+    from suit_generator.suit_sign_script_base import SuitSignAlgorithms, SignatureAlreadyPresentActions
+    hist = core.tuplify(hist)
+    if len(hist) > 1:
+        sign_script, kms_script = scripts()
+        spec = importlib.util.spec_from_file_location("svmc_sign_script", sign_script)
+        mod = importlib.util.module_from_spec(spec)
+        spec.loader.exec_module(mod)
+        b = created_set()[hist[0]]
+        label = f"library sign_envelope history on one in-memory envelope ({hist[0]}): {[LIB_OPS[i][:2] + (ALG_KEYS[LIB_OPS[i][2]][0],) for i in hist[1:]]}"
+        form0 = LIB_OPS[hist[1]][0]
+        env = cbor2.loads(b)
+        if form0 == "dict":
+            env = cbor2.CBORTag(env.tag, dict(env.value))
+        shared = mod.suit_signer_factory()
+        results = []
+        try:
+            for n, i in enumerate(hist[1:]):
+                form, reuse, ak = LIB_OPS[i]
+                alg, kname = ALG_KEYS[ak]
+                signer = shared if reuse == "same-signer" else mod.suit_signer_factory()
+                out = signer.sign_envelope(env, kname, 0x1000 + n, SuitSignAlgorithms(alg), vkeys.key_dir(), kms_script,
+                                           SignatureAlreadyPresentActions("error"))
+                results.append((cbor2.dumps(out), alg, kname, 0x1000 + n, out))
+                if cbor2.dumps(env) != b:
+                    agg.viol("C04:library/input-modified", f"{label}: the caller's envelope object changed during call {n + 1}")
+                    return []
+        except Exception as e:
+            agg.viol(f"C04:library/sign-failed/{type(e).__name__}@{impl.site_of(e)}", f"{label}: call {len(results) + 1}: {type(e).__name__}: {str(e)[:200]}")
+            return []
+        for n, (ob, alg, kname, kid, obj) in enumerate(results):
+            r = check_signed(b, ob, alg, kname, kid)
+            if r is None and cbor2.dumps(obj) != ob:
+                r = ("library/earlier-result-modified", f"the object returned by call {n + 1} changed during a later call")
+            if r:
+                agg.viol(f"C04:{r[0]}" if r[0].startswith("library") else f"C04:library/{r[0]}", f"{label}: result of call {n + 1}: {r[1]}")
+                return []
+        agg.ok(h8("c04lib", hist), f"ok:lib:depth{len(hist) - 1}", sample={"history": [list(LIB_OPS[i][:2]) + [ALG_KEYS[LIB_OPS[i][2]][0]] for i in hist[1:]]} if hist[1:] == (13, 2) else None)
+    if not expand:
+        return []
+    # the form of the object is fixed by the first call (it is one object); later calls only vary signer/alg
+    ops = range(len(LIB_OPS)) if len(hist) == 1 else [i for i in range(len(LIB_OPS)) if LIB_OPS[i][0] == LIB_OPS[hist[1]][0]]
+    return [(f"sign:{LIB_OPS[i]}", hist + (i,), h8("c04l", hist + (i,))) for i in ops]
+
+
 def plan(tier):
     return [
         CaseStage("sign-product", lambda: sign_cases(tier), run_sign, disjoint=True, rule="E x (alg,key) x key id x key encoding"),
         CaseStage("rs-seam", lambda: rs_cases(tier), run_rs, chunk=1, rule="every (r,s) leading-zero pattern, 3 curves, through the KMS ECDSA conversion"),
+        CaseStage("key-names", lambda: keyname_cases(tier), run_keyname, chunk=2,
+                  rule="6 (alg,key type) x key names with dots (sibling with the truncated name present / absent, PEM / DER) x main / CLI"),
+        core.BfsStage("library-histories", lib_init, lib_step, max_depth=2 if tier == "quick" else 3,
+                      rule="histories of sign_envelope calls on one in-memory envelope object: {frozen, dict} content x {fresh, same} Signer x 6 (alg,key)"),
         _VolumeStage("real-signatures", lambda: volume_cases(tier), run_volume, chunk=1, rule="N real ECDSA signatures per curve through SuitKMS.sign"),
     ]
